@@ -79,6 +79,8 @@ def spec():
                             "requestBody": {"required": True, "content": {"application/json": {"schema": {"$ref": "#/components/schemas/Item"}},
                                                                           "application/x-www-form-urlencoded": {"schema": {"type": "object"}}}},
                             "responses": {"200": ok}}},
+        # a path variable that no parameter declares, next to an optional declared parameter (required arguments come first)
+        "/implicit/{vid}/{wid}": {"get": {"operationId": "getImplicit", "parameters": [_p("q", "query"), _p("wid", "path", True), _p("X-Opt", "header")], "responses": {"200": ok}}},
         # enum-typed parameters in every location (the wire carries the member's VALUE)
         "/paint/{tone}": {"get": {"operationId": "paintIt", "parameters": [
             _p("tone", "path", True, {"$ref": "#/components/schemas/Color"}), _p("color", "query", False, {"$ref": "#/components/schemas/Color"}),
@@ -116,6 +118,8 @@ OPS = {
     "send_xml": dict(method="PUT", path="/xml", params=[], body=("bytes_content", "data", "bytes")),
     "get_snapshot": dict(method="GET", path="/snapshots/{takenAt}/{day}", params=[
         ("taken_at", "takenAt", "path", True, "datetime"), ("day", "day", "path", True, "date"), ("since", "since", "query", False, "datetime")], body=None),
+    "get_implicit": dict(method="GET", path="/implicit/{vid}/{wid}", params=[
+        ("vid", "vid", "path", True, "str"), ("wid", "wid", "path", True, "str"), ("q", "q", "query", False, "str"), ("x_opt", "X-Opt", "header", False, "str")], body=None),
     "paint_it": dict(method="GET", path="/paint/{tone}", params=[
         ("tone", "tone", "path", True, "color"), ("color", "color", "query", False, "color"), ("colors", "colors", "query", False, "colorlist"),
         ("level", "level", "query", False, "level"), ("x_color", "X-Color", "header", False, "color"), ("sid", "sid", "cookie", False, "color")], body=None),
